@@ -108,7 +108,17 @@ pub const SOUP: &[char] = &[
 /// A string of 0..=12 characters from SOUP (titles and queries no real user would type).
 pub fn soup(rng: &mut Rng) -> String {
     let n = rng.range(0, 12);
-    (0..n).map(|_| *rng.pick(SOUP)).collect()
+    (0..n).map(|_| any_char(rng)).collect()
+}
+
+/// A character: mostly from SOUP, sometimes any code point below U+0530 (ASCII, Latin-1 and its
+/// boundaries, Latin Extended, IPA, Greek, Cyrillic), rarely any scalar value at all.
+pub fn any_char(rng: &mut Rng) -> char {
+    match rng.below(16) {
+        0..=3 => char::from_u32(rng.below(0x530) as u32).unwrap_or('a'),
+        4 => char::from_u32(rng.below(0x11_0000) as u32).unwrap_or('\u{fffd}'),
+        _ => *rng.pick(SOUP),
+    }
 }
 
 /// Sprinkles a few SOUP characters into a string.
@@ -116,7 +126,7 @@ pub fn spice(rng: &mut Rng, s: &str) -> String {
     let mut cs: Vec<char> = s.chars().collect();
     for _ in 0..rng.range(1, 3) {
         let i = rng.below(cs.len() + 1);
-        cs.insert(i, *rng.pick(SOUP));
+        cs.insert(i, any_char(rng));
     }
     cs.into_iter().collect()
 }
